@@ -139,11 +139,34 @@ def consts_for(W):
             ["const", 5, 3, False], ["const", -3, 3, True], ["const", -(1 << (W - 1)), W, True]]
 
 
+def const_operand_programs(W):
+    """Operators with one CONSTANT operand (back ends shorten/fold constant operands): shifts by constants,
+    comparisons/arithmetic with constants whose top bits repeat, on signed and unsigned signals."""
+    out = []
+    amounts = [["const", 1, None, False], ["const", 2, None, False], ["const", 3, None, False], ["const", 7, 3, False],
+               ["const", 6, 3, False], ["const", 3, 4, False], ["const", 0, 2, False]]
+    for sa in ((W, True), (W, False), (2, True)):
+        for c in amounts:
+            out.append(["shr", sig("a", sa), c])
+            out.append(["shl", sig("a", sa), c])
+    vals = [["const", 3, 4, False], ["const", -1, 4, True], ["const", -4, 4, True], ["const", 7, 4, True], ["const", 12, 4, False],
+            ["const", -8, 4, True], ["const", 0, 3, False]]
+    for sa in ((W, True), (W, False)):
+        for c in vals:
+            for k in ("add", "sub", "mul", "floordiv", "mod", "and", "or", "xor", "lt", "ge", "eq", "ne"):
+                out.append([k, sig("a", sa), c])
+                out.append([k, c, sig("a", sa)])
+            out.append(["mux", sig("c", (1, False)), c, sig("a", sa)])
+            out.append(["bit_select", c, sig("b", (2, False)), 2])
+            out.append(["cat", [c, sig("a", sa)]])
+    return out
+
+
 def depth1(W, amount_W):
     """Every operator over every combination of leaf shapes (signals), plus parametrised forms."""
     shapes = leaf_shapes(W)
     ushapes = [(w, False) for w in range(0, amount_W + 1)]
-    out = []
+    out = list(const_operand_programs(W))
     for k in UNARY:
         for sa in shapes:
             if k == "as_signed" and sa[0] == 0:
